@@ -157,6 +157,8 @@ class C10(Prop):
                 parts = [rng.choice(cw) for _ in range(rng.randint(0, 2)) if cw] + [rng.choice(tw + cw)]
                 names.add(".".join(parts))
         names.update(["nope", "sub.nope"][:rng.randint(0, 2)])
+        if cw:   # empty segments: a trailing dot means "the default of that collection" to the lookup
+            names.update([rng.choice(cw) + ".", "." + rng.choice(cw), rng.choice(cw) + ".." + (rng.choice(tw) if tw else "x")])
         names = sorted(n for n in names if n and not n.startswith("-"))
         groups = {"plain": [], "dsub": [], "balias": []}
         for nm in names:
